@@ -510,6 +510,9 @@ def rule_r4(rep, idxs):
                             if i_ is not None:
                                 late += sibs[i_ + 1:]
                         x = p_
+                    sid = d.get('id') if d['kind'] == 'VarDecl' else (cast.decl_ref(callee_of(d)[3]) if callee_of(d)[3] is not None else None)
+                    if late and sid is not None and open_failure_guard(late[0], sid):
+                        late = late[1:]        # taken only when the open failed: no file exists
                     try:
                         reach = reachable_throws(idx, late)
                     except AnalysisBroken as e:
@@ -522,7 +525,7 @@ def rule_r4(rep, idxs):
                             'an output stream is opened in %s; no repository error can be raised after that point' % key, nontrivial=False)
     # late throws
     idx = idxs['xcmp.cpp']
-    emit = idx.func('hexasm::CodeGen::emitBin')
+    emit = idx.func_where('hexasm::CodeGen::emitBin', lambda g: any(d_['kind'] == 'VarDecl' and any(t in dqt_all(d_) for t in OUT_STREAM_TYPES) for d_ in walk(g.body)))
     rep.analysed(emit.sig, 'xcmp.cpp')
     opened = False
     late = []
@@ -588,7 +591,7 @@ def rule_r7(rep, idxs):
              'state is tested and a failed open raises an exception (which R1 turns into a diagnostic and a non-zero status); nothing is '
              'written before the test', floor=1, floor_reason='hexasm::CodeGen::emitBin (shared by hexasm, xcmp and xrun)')
     idx = idxs['xcmp.cpp']
-    emit = idx.func('hexasm::CodeGen::emitBin')
+    emit = idx.func_where('hexasm::CodeGen::emitBin', lambda g: any(d_['kind'] == 'VarDecl' and any(t in dqt_all(d_) for t in OUT_STREAM_TYPES) for d_ in walk(g.body)))
     stmts = children(emit.body)
     for i, st in enumerate(stmts):
         vds = [d for d in walk(st) if d['kind'] == 'VarDecl' and any(t in dqt_all(d) for t in OUT_STREAM_TYPES)]
